@@ -77,7 +77,9 @@ CDStrs == UNION {[1..k -> {"]", ">", "a"}] : k \in 3..4}
 CDataSources == {"cfg-font", "cfg-background"}
 DashStrs == UNION {[1..k -> {"-", ">", "<", "Q"}] : k \in 3..4}
 TextSources == {"text-attr", "content", "text-element", "var-in-text", "cdata-content"}
-CommentSources == {"comment-attr", "raw-comment-attr", "input-comment"}
+\* (the comment text may also arrive through a variable, or through a chain of variables
+\* each defined after the one that refers to it: one link resolves per evaluation)
+CommentSources == {"comment-attr", "raw-comment-attr", "input-comment", "comment-var", "comment-var-chain"}
 
 \* serialisation the design prescribes for a value from a source
 WriteAttr(s) == IF Dev("RawAttr") THEN s ELSE EscAttr(s)
@@ -109,7 +111,7 @@ WfCases ==
     \cup {[fam |-> "wf", kind |-> "text", src |-> src, s |-> s, ser |-> WriteText(src, s)] : src \in TextSources, s \in Strs(MaxLen)}
     \cup {[fam |-> "wf", kind |-> "comment", src |-> src, s |-> s, ser |-> s] : src \in CommentSources, s \in Strs(MaxLen)}
     \cup {[fam |-> "wf", kind |-> "attr", src |-> src, s |-> s, ser |-> WriteAttr(s)] : src \in {"debug-original", "cfg-svg-style"}, s \in DashStrs}
-    \cup {[fam |-> "wf", kind |-> "comment", src |-> src, s |-> s, ser |-> s] : src \in {"comment-attr", "raw-comment-attr"}, s \in DashStrs}
+    \cup {[fam |-> "wf", kind |-> "comment", src |-> src, s |-> s, ser |-> s] : src \in {"comment-attr", "raw-comment-attr", "comment-var", "comment-var-chain"}, s \in DashStrs}
     \cup {[fam |-> "wf", kind |-> "cdata", src |-> src, s |-> s, ser |-> CDSections(s, <<>>)] : src \in CDataSources, s \in CDStrs}
 
 \* the design's obligations for every case
